@@ -21,14 +21,28 @@ for p in sorted(glob.glob(os.path.join(HERE, "mutants", "*.patch"))):
             jobs.append((b, c))
 res_path = os.path.join(HERE, "mutants", "RESULTS.json")
 results = json.load(open(res_path)) if os.path.exists(res_path) else {}
-for b, c in jobs:
+import concurrent.futures, threading
+lock = threading.Lock()
+
+
+def one(job):
+    b, c = job
     env = dict(os.environ, VERIF_NO_FRESH_REPLAY="1", MUT_LINES="400")
     out = subprocess.run([os.path.join(HERE, "tools", "mutate.sh"), os.path.join(HERE, "mutants", b), c, "quick"], capture_output=True, text=True, env=env)
     caught = out.returncode == 0
-    sigs = sorted(set(re.findall(r"signature=(\S+)", out.stdout)))
-    # mutate.sh filters indented lines; recover signatures from replay files is not needed: count VIOLATION lines
     nviol = len(re.findall(r"^VIOLATION", out.stdout, flags=re.M))
     exitm = re.search(r"check-exit=(\d+)", out.stdout)
-    results["%s@%s" % (b, c)] = {"patch": b, "property": c, "caught": caught, "violations": nviol, "check_exit": int(exitm.group(1)) if exitm else None}
-    print("%-55s %s %s" % (b, c, "caught (%d)" % nviol if caught else "MISSED exit=%s" % (exitm.group(1) if exitm else "?")), flush=True)
+    with lock:
+        results["%s@%s" % (b, c)] = {"patch": b, "property": c, "caught": caught, "violations": nviol, "check_exit": int(exitm.group(1)) if exitm else None}
+        print("%-55s %s %s" % (b, c, "caught (%d)" % nviol if caught else "MISSED exit=%s" % (exitm.group(1) if exitm else "?")), flush=True)
+        json.dump(results, open(res_path, "w"), indent=1, sort_keys=True)
+
+
+# MUT_PAR mutants at a time (each check run uses VERIF_JOBS workers)
+with concurrent.futures.ThreadPoolExecutor(int(os.environ.get("MUT_PAR", "1"))) as ex:
+    list(ex.map(one, jobs))
+# drop results of patches that no longer exist
+live = set("%s@%s" % j for j in jobs)
+if not only:
+    results = {k: v for k, v in results.items() if k in live}
     json.dump(results, open(res_path, "w"), indent=1, sort_keys=True)
